@@ -1,19 +1,19 @@
 #!/usr/local/bin/python3-vt
-# applies every seeded change in /verif/seeded to /repo, runs the quick check of the property it targets (and optionally others), reverts;
+# applies every seeded change in /verif/seeded to /repo (or to the tree named by VERIF_REPO, e.g. a scratch worktree of /repo), runs the quick check of the property it targets (and optionally others), reverts;
 # writes seeded/RESULTS.json  {seed: {property: {exit, violated_lemmas}}}
 import os, sys, json, subprocess, re, glob
 HERE = os.path.dirname(os.path.dirname(os.path.abspath(__file__)))
-only = sys.argv[1:]
+only = sys.argv[1:]; REPO = os.environ.get('VERIF_REPO', '/repo')
 res_p = os.path.join(HERE, 'seeded', 'RESULTS.json'); res = json.load(open(res_p)) if os.path.exists(res_p) else {}
 for d in sorted(glob.glob(os.path.join(HERE, 'seeded', 'C*-*'))):
     sid = os.path.basename(d); prop = sid.split('-')[0]
     if only and sid not in only and prop not in only: continue
-    if subprocess.run(['git', '-C', '/repo', 'apply', os.path.join(d, 'patch.diff')]).returncode != 0: print(sid, 'PATCH DOES NOT APPLY'); continue
+    if subprocess.run(['git', '-C', REPO, 'apply', os.path.join(d, 'patch.diff')]).returncode != 0: print(sid, 'PATCH DOES NOT APPLY'); continue
     try:
         r = subprocess.run([os.path.join(HERE, 'check'), prop, '--tier', 'quick', '--no-evidence'], capture_output=True, text=True, timeout=2400, cwd=HERE)
         lem = sorted(set(re.findall(r'violated: (\w+) case', r.stdout)))
         res.setdefault(sid, {})[prop] = dict(exit=r.returncode, violated_lemmas=lem, first=(re.findall(r'violated: .*', r.stdout) or [''])[0][:300])
         print(sid, prop, 'exit', r.returncode, lem, flush=True)
     finally:
-        subprocess.run(['git', '-C', '/repo', 'checkout', '--', '.'])
+        subprocess.run(['git', '-C', REPO, 'checkout', '--', '.'])
     json.dump(res, open(res_p, 'w'), indent=1)
